@@ -111,53 +111,3 @@ func (P) Generate(g *core.Gen) {
 		genImageFamily(g.R, emit)
 	}
 }
-
-// ClassifyMismatch recognises the known finding F-C05-a: the only answers that
-// differ are moves (Next/Prev) of a cursor that changed direction since it was
-// last positioned with First/Last/Seek, and no such cursor was used to delete.
-func (P) ClassifyMismatch(line, goOut, leanOut string) string {
-	f := strings.Fields(line)
-	if len(f) < 5 || f[1] != "db" {
-		return ""
-	}
-	ops := f[4:]
-	g, l := strings.Split(goOut, "|"), strings.Split(leanOut, "|")
-	if len(g) != len(ops) || len(l) != len(ops) {
-		return ""
-	}
-	dir := map[string]int{}
-	tainted := map[string]bool{}
-	diffs := 0
-	for i, op := range ops {
-		t := strings.Split(op, ":")
-		move := false
-		switch t[0] {
-		case "cu":
-			dir[t[2]], tainted[t[2]] = 0, false
-		case "F", "S":
-			dir[t[1]], tainted[t[1]] = 1, false
-		case "L":
-			dir[t[1]], tainted[t[1]] = -1, false
-		case "N":
-			tainted[t[1]] = tainted[t[1]] || dir[t[1]] == -1
-			dir[t[1]], move = 1, true
-		case "P":
-			tainted[t[1]] = tainted[t[1]] || dir[t[1]] == 1
-			dir[t[1]], move = -1, true
-		case "D":
-			if tainted[t[1]] {
-				return ""
-			}
-		}
-		if g[i] != l[i] {
-			if !move || !tainted[t[1]] {
-				return ""
-			}
-			diffs++
-		}
-	}
-	if diffs > 0 {
-		return "F-C05-a"
-	}
-	return ""
-}
